@@ -175,6 +175,18 @@ class Facts:
     def fn(self, key):
         f = self.fns.get(key)
         if f is None:
+            # a free function (or inherent method) that was moved to another module of its crate keeps its role: the one
+            # function of that crate with the same name (and the same type for a method) stands for it
+            if not key.startswith("<") and "::" in key:
+                parts = key.split("::")
+                crate, name = parts[0], parts[-1]
+                owner = parts[-2] if len(parts) > 2 and parts[-2][:1].isupper() else None
+                cands = [k for k, g in self.fns.items() if g["crate"] == crate and not k.startswith("<") and "{" not in k
+                         and k.split("::")[-1] == name and (owner is None or (len(k.split("::")) > 2 and k.split("::")[-2] == owner))
+                         and (owner is not None or not k.split("::")[-2][:1].isupper())]
+                if len(cands) == 1:
+                    self.fns[key] = self.fns[cands[0]]
+                    return self.fns[key]
             raise AnalysisError("anchor function missing: %s" % key)
         return f
 
